@@ -2,4 +2,4 @@
 From Coq Require Extraction ExtrOcamlBasic.
 From Falco Require Import Base.Res Base.Bytes Model.StoreSyntax Model.Store Model.StoreOps.
 Extraction Language OCaml.
-Extraction "store_model.ml" run_main init_state std_ops repaired original of_bits64 to_bits64 n2b b2n mk_snap.
+Extraction "store_model.ml" run_main init_state std_ops repaired original of_bits64 to_bits64 n2b b2n mk_snap field_of_text hget.
